@@ -186,7 +186,7 @@ def main():
     # (an observation stage must never decide the check: a failure of its machinery is recorded, not raised)
     try:
         nsh = chk.drive([('nat', m, np_) for m in national.MODULES], national.worker)
-        nrej = chk.validate('Trace_National', nsh, own_clauses={'N0', 'N1', 'N2'}, label='national transcriptions (observation)')
+        nrej = chk.validate('Trace_National', nsh, own_clauses={'N0', 'N1', 'N2', 'N3'}, label='national transcriptions (observation)')
         nextra = run.merge_extra(nsh)
         chk.cov['national_transcriptions'] = {'modules': national.MODULES, 'events': nextra.get('national', 0),
                                               'disagreements': sorted(set('%s %r (%s)' % (r['meta'].get('m'), r['meta'].get('w'), r['meta'].get('outcome')) for r in nrej))[:60]}
